@@ -140,8 +140,23 @@ func (env *SpecEnv) eval(x Expr) SVal {
 				env.vars[k] = *o
 			}
 		}
+		var pats []*Term
+		for i, bv := range bvs {
+			if bv.sort == SInt {
+				var p *Term
+				body, bvs[i], p = absoluteIndexForm(body, bv)
+				if p != nil {
+					pats = append(pats, p)
+				}
+			}
+		}
+		if len(pats) != len(bvs) {
+			pats = nil // a pattern must cover every bound variable
+		} else if len(pats) > 1 {
+			pats = nil // multi-patterns are not supported by the printer; let the solver infer
+		}
 		if n.Forall {
-			return gBool(Forall(bvs, body))
+			return gBool(Forall(bvs, body, pats...))
 		}
 		return gBool(Exists(bvs, body))
 	}
@@ -643,3 +658,121 @@ func (env *SpecEnv) bin(n *EBin) SVal {
 }
 
 func (v SVal) String() string { return fmt.Sprintf("%v:%v%s", v.V.T, v.T, v.G) }
+
+// absoluteIndexForm rewrites a body in which the bound variable v only indexes arrays as (+ c v)
+// (same c everywhere) into one over x = c + v, so that the quantifier's trigger is select(A, x)
+// and matches any element access regardless of how its index was computed.
+func absoluteIndexForm(body, v *Term) (*Term, *Term, *Term) {
+	var base *Term
+	var anyArr *Term
+	ok := true
+	seen := map[int]bool{}
+	var rec func(t *Term)
+	rec = func(t *Term) {
+		if !ok || seen[t.id] || !t.bound {
+			return
+		}
+		seen[t.id] = true
+		if t.op == "select" && mentions(t.args[1], v) {
+			idx := t.args[1]
+			c := splitIndex(idx, v)
+			if c == nil {
+				ok = false
+				return
+			}
+			if base == nil {
+				base = c
+			} else if base != c {
+				ok = false
+				return
+			}
+			if anyArr == nil && !mentions(t.args[0], v) {
+				anyArr = t.args[0]
+			}
+			rec(t.args[0])
+			return
+		}
+		for _, a := range t.args {
+			rec(a)
+		}
+	}
+	rec(body)
+	if !ok || base == nil || anyArr == nil {
+		return body, v, nil
+	}
+	if _, lit := base.intVal(); lit {
+		return body, v, nil // already absolute
+	}
+	x := BoundVar(v.symName()+"_abs", SInt)
+	m := map[*Term]*Term{}
+	// replace index terms first (larger terms before the variable itself)
+	seen2 := map[int]bool{}
+	var collect func(t *Term)
+	collect = func(t *Term) {
+		if seen2[t.id] || !t.bound {
+			return
+		}
+		seen2[t.id] = true
+		if t.op == "select" && mentions(t.args[1], v) {
+			idx := t.args[1]
+			if idx.op == "+" && len(idx.args) == 2 && idx.args[0] == base {
+				rest := idx.args[1]
+				if rest == v {
+					m[idx] = x
+				} else if rest.op == "+" && rest.args[0] == v {
+					m[idx] = Add(x, rest.args[1])
+				}
+			}
+		}
+		for _, a := range t.args {
+			collect(a)
+		}
+	}
+	collect(body)
+	nb := Subst(body, m)
+	nb = Subst(nb, map[*Term]*Term{v: Sub(x, base)})
+	if mentions(nb, v) {
+		return body, v, nil
+	}
+	return nb, x, Select(anyArr, x)
+}
+
+func mentions(t, v *Term) bool {
+	if !t.bound {
+		return false
+	}
+	seen := map[int]bool{}
+	var rec func(*Term) bool
+	rec = func(x *Term) bool {
+		if x == v {
+			return true
+		}
+		if !x.bound || seen[x.id] {
+			return false
+		}
+		seen[x.id] = true
+		for _, a := range x.args {
+			if rec(a) {
+				return true
+			}
+		}
+		return false
+	}
+	return rec(t)
+}
+
+// splitIndex returns c when idx is (+ c v) or (+ c (+ v lit)) with c free of v.
+func splitIndex(idx, v *Term) *Term {
+	if idx.op == "+" && len(idx.args) == 2 && !mentions(idx.args[0], v) {
+		rest := idx.args[1]
+		if rest == v {
+			return idx.args[0]
+		}
+		if rest.op == "+" && len(rest.args) == 2 && rest.args[0] == v {
+			if _, lit := rest.args[1].intVal(); lit {
+				return idx.args[0]
+			}
+		}
+	}
+	return nil
+}
